@@ -1446,7 +1446,8 @@ static std::vector<Item> build_items(const vh::Opts& o) {
     const Fmt& f = kFmts[fi];
     i128 lo, hi;
     unit_range(f, lo, hi);
-    bool exhaustive = f.count <= exh_bits && !(f.count > 26 && f.lead + f.trail > 0 && f.lead != 3) && f.kind != K_A32_ADR;
+    // 32-bit fields (thorough only): two of the leading/trailing variants stay on boundary windows to bound the cost
+    bool exhaustive = f.count <= exh_bits && !(f.count > 26 && (f.lead == 1 || f.lead == 2)) && f.kind != K_A32_ADR;
     if (exhaustive) {
       int64_t chunk = f.count > 26 ? (1 << 20) : f.count > 21 ? (1 << 16) : (1 << 14);
       add_unit_range(items, fi, lo - band, hi + band, chunk);
